@@ -60,6 +60,16 @@ pub proof fn lemma_start_at_mono(c: Seq<DataId>, i: int, j: int)
     if i < j { lemma_start_at_mono(c, i, j - 1); } else if i > 0 { lemma_start_at_mono(c, i - 1, j - 1); }
 }
 
+// LINK between the plan and the write task (proved): a blob planned by add_file at offset start_at(c, k) with its plaintext
+// length ends inside the planned file length start_at(c, |c|) -- the precondition `start + len <= planned` of restore_write_blob
+pub proof fn lemma_planned_blob_lies_inside_its_file(c: Seq<DataId>, k: int)
+    requires 0 <= k < c.len(), forall|j: int| 0 <= j < c.len() ==> dlen(#[trigger] c[j]) >= 0,
+    ensures 0 <= start_at(c, k), start_at(c, k) + dlen(c[k]) <= start_at(c, c.len() as int),
+{
+    lemma_start_at_mono(c, k + 1, c.len() as int);
+    lemma_start_at_mono(c, k, k + 1);
+}
+
 // ---- collect_and_prepare: what happens to entries that exist in the destination but not in the snapshot ----
 pub struct DirEntry { pub _opaque: u64 }
 pub struct FileTypeR { pub _opaque: u64 }
